@@ -40,6 +40,8 @@ pub struct Profile {
     pub p_on_or: f64,
     pub p_extra_select: f64,
     pub p_pu_without_root: f64,
+    pub p_nested_by_id: f64,
+    pub p_count_of_unique: f64,
     pub p_unsupported_agg: f64,
     /// Probability of an aggregation over an aggregation grouped by the inner aggregate
     /// (`SELECT t.c, count(*) FROM (SELECT count(*) AS c FROM base GROUP BY key) AS t GROUP BY t.c`).
@@ -76,14 +78,16 @@ impl Profile {
             p_on_or: 0.0,
             p_extra_select: 0.0,
             p_pu_without_root: 0.03,
+            p_nested_by_id: 0.0,
+            p_count_of_unique: 0.0,
             p_unsupported_agg: 0.0,
             p_nested_group: 0.0,
             p_multi_dp: 0.0,
         };
         match prop {
             "C03" => Profile { p_on_or: 0.04, p_cross: 0.04, p_outer_kinds: 0.05, p_multi_dp: 0.06, p_shared_cte: 0.05, p_nested_group: 0.03, ..base },
-            "C01" => Profile { p_on_or: 0.06, p_cross: 0.06, p_outer_kinds: 0.06, p_shared_cte: 0.03, p_nested_group: 0.05, ..base },
-            "C09" => Profile { p_fn_exprs: 0.25, p_modulo: 0.12, p_alias_shadow: 0.4, public_keys_only: true, benign_data: true, p_distinct: 0.12, p_row_privacy: 0.15, p_grouped: 0.65, ..base },
+            "C01" => Profile { p_nested_by_id: 0.04, p_on_or: 0.06, p_cross: 0.06, p_outer_kinds: 0.06, p_shared_cte: 0.03, p_nested_group: 0.05, ..base },
+            "C09" => Profile { p_count_of_unique: 0.6, p_fn_exprs: 0.25, p_modulo: 0.12, p_alias_shadow: 0.4, public_keys_only: true, benign_data: true, p_distinct: 0.12, p_row_privacy: 0.15, p_grouped: 0.65, ..base },
             "C04" => Profile { p_unsupported_agg: 0.08, p_key_via_agg: 0.25, p_nested_group: 0.08, p_nested: 0.0, need_private_key: true, p_grouped: 1.0, p_outer: 0.0, p_distinct: 0.05, ..base },
             "C16" => Profile { benign_data: true, full_catalogue: true, p_public_table: 1.0, p_synthetic: 0.3, ..base },
             "C02" => Profile { p_pu_without_root: 0.08, p_extra_select: 0.05, p_join_of_subqueries: 0.05, p_on_or: 0.04, p_unsupported_agg: 0.08, p_cross: 0.04, p_outer_kinds: 0.05, p_multi_dp: 0.04, p_nested_group: 0.03, p_shared_cte: 0.08, p_plain: 0.25, p_synthetic: 0.4, p_public_table: 0.5, p_outer: 0.2, ..base },
@@ -925,6 +929,37 @@ pub fn generate(seed: u64, run: u64, prop: &str) -> Generated {
         }
     }
 
+    // an aggregation over an inner aggregation grouped by a column that is NOT the privacy unit but
+    // is named like the field the unit path ends in (orders.id vs users.id), with values shared
+    // between units (own stream)
+    let mut rni = Rng::stream(seed, run, "nested_by_id");
+    if rni.chance(profile.p_nested_by_id) && has("users").is_some() && has("orders").is_some() && !direct_orders {
+        let orders_t = has("orders").unwrap();
+        if let Some(vc) = orders_t.cols.iter().find(|c| c.ty.is_numeric() && !c.name.ends_with("id") && c.name != "w" && c.name != "ref").map(|c| c.name.clone()) {
+            let mut tables2: Vec<TableSpec> = tables.iter().filter(|t| t.name != "items").cloned().collect();
+            let ti = tables2.iter().position(|t| t.name == "orders").unwrap();
+            let ic = tables2[ti].col_index("id").unwrap();
+            tables2[ti].cols[ic].unique = false;
+            let k = 2 + rni.below(4) as i64;
+            for (j, r) in tables2[ti].rows.iter_mut().enumerate() {
+                r[ic] = Cell::Int(1 + (j as i64 % k));
+            }
+            let mut pu2 = pu.clone();
+            pu2.entries.retain(|e| !e.table.starts_with("items"));
+            let f = *rni.pick(&["avg", "sum"]);
+            let sql = format!("SELECT sum(t.a) AS a0 FROM (SELECT o.id AS id, {}(o.{}) AS a FROM orders AS o GROUP BY o.id) AS t", f, vc);
+            tags.push("nested_by_id".into());
+            let base = Some(("o".to_string(), "orders".to_string()));
+            let query = QuerySpec { from: vec![], where_: vec![], keys: vec![], aggs: vec![], having: None, outer: None, plain: None, cte: None, raw_sql: None, holders_override: None, inner_where: vec![], outer_group_by: false, extra_select: vec![] };
+            let protected2: Vec<String> = protected.iter().filter(|t| *t != "items").cloned().collect();
+            let synthetic2: Vec<TableSpec> = synthetic.iter().filter(|t| !t.name.contains("items")).cloned().collect();
+            let mut g = finish(seed, run, tables2, synthetic2, pu2, params, query, base, tags, faults, &protected2);
+            g.scenario.sql = sql;
+            g.scenario.query = None;
+            return g;
+        }
+    }
+
     // a row-level join of two filtered sub-queries (own stream): no DP route exists for it, it can
     // only be refused or answered from synthetic data
     let mut rjs = Rng::stream(seed, run, "join_of_subqueries");
@@ -1313,6 +1348,23 @@ pub fn generate(seed: u64, run: u64, prop: &str) -> Generated {
             let w = query.where_.remove(i);
             query.inner_where.push(w);
             tags.push("inner_where".into());
+        }
+    }
+    // COUNT of a UNIQUE column of the NULL-extended side of a LEFT JOIN (own stream)
+    let mut rcu = Rng::stream(seed, run, "count_of_unique");
+    if rcu.chance(profile.p_count_of_unique) && query.cte.is_none() {
+        if let Some(f) = query.from.iter().skip(1).find(|f| f.kind == "LEFT JOIN") {
+            let prefix = format!("{}.", f.alias);
+            if let Some((q, _)) = cols.iter().find(|(q, c)| q.starts_with(&prefix) && c.unique) {
+                if let Some(a) = query.aggs.iter_mut().find(|a| a.f == AggFn::Count && !a.distinct) {
+                    a.arg = q.clone();
+                    tags.push("count_of_unique".into());
+                } else if let Some(a) = query.aggs.iter_mut().find(|a| a.f == AggFn::CountStar) {
+                    a.f = AggFn::Count;
+                    a.arg = q.clone();
+                    tags.push("count_of_unique".into());
+                }
+            }
         }
     }
     // a bare, un-grouped, un-aggregated column next to the aggregates (own stream)
